@@ -91,6 +91,10 @@ func checkSkipMemoKeyCoversInputs(c *core.Ctx, r *core.Rule, prog *core.Prog, ex
 	r.Note("skip-memo sites (lookup on a long-lived map, hit leaves, same function inserts): %d", n)
 }
 
+// skipMemoReviewed: sites whose uncovered inputs were read and argued harmless, keyed by site + the uncovered atoms (a
+// new uncovered atom at the same site is reported).
+var skipMemoReviewed = map[string]string{}
+
 type skipMemo struct {
 	lookup    *ssa.Lookup
 	mapName   string // owner type + field, or global name
@@ -312,9 +316,15 @@ func leavesQuickly(hit, miss *ssa.BasicBlock) bool {
 		}
 		seen[b] = true
 		for _, in := range b.Instrs {
+			if mi, ok := in.(*ssa.MakeInterface); ok && core.IsErrorType(mi.Type()) {
+				return false
+			}
 			if call, ok := in.(ssa.CallInstruction); ok {
 				if _, isDefer := in.(*ssa.Defer); isDefer {
 					continue
+				}
+				if sig := call.Common().Signature(); sig.Results().Len() > 0 && core.IsErrorType(sig.Results().At(sig.Results().Len()-1).Type()) {
+					return false
 				}
 				if f := call.Common().StaticCallee(); f != nil && core.InModule(f) {
 					return false
@@ -328,19 +338,59 @@ func leavesQuickly(hit, miss *ssa.BasicBlock) bool {
 		}
 		switch t := b.Instrs[len(b.Instrs)-1].(type) {
 		case *ssa.Return:
-			return true
+			return returnsSuccess(t)
 		case *ssa.Jump:
 			b = t.Block().Succs[0]
 			// a jump into a block that the miss side also reaches is a join, not a skip
 			if len(b.Preds) > 1 {
-				if _, isRet := b.Instrs[len(b.Instrs)-1].(*ssa.Return); isRet && len(b.Instrs) <= 3 {
-					return true
+				if ret, isRet := b.Instrs[len(b.Instrs)-1].(*ssa.Return); isRet && len(b.Instrs) <= 3 {
+					return returnsSuccess(ret)
 				}
 				return false
 			}
 		default:
 			return false
 		}
+	}
+	return false
+}
+
+// returnsSuccess: no error result of the return is a non-nil value (a hit that reports a conflict is a uniqueness check,
+// not a memo).
+func returnsSuccess(ret *ssa.Return) bool {
+	for _, v := range ret.Results {
+		if !core.IsErrorType(v.Type()) || core.IsNilConst(v) {
+			continue
+		}
+		switch x := v.(type) {
+		case *ssa.Call, *ssa.MakeInterface, *ssa.Extract:
+			return false
+		case *ssa.Phi:
+			for _, e := range x.Edges {
+				if _, isCall := e.(*ssa.Call); isCall {
+					return false
+				}
+				if _, isMI := e.(*ssa.MakeInterface); isMI {
+					return false
+				}
+			}
+		}
+	}
+	return true
+}
+
+// longLivedOwner: per-document singletons whose own state every table in them takes as stable.
+func longLivedOwner(t types.Type) bool {
+	if p, ok := t.Underlying().(*types.Pointer); ok {
+		t = p.Elem()
+	}
+	n, ok := types.Unalias(t).(*types.Named)
+	if !ok || n.Obj().Pkg() == nil {
+		return false
+	}
+	switch n.Obj().Pkg().Path() + "." + n.Obj().Name() {
+	case core.Module + "/openapi/parser.parser", core.Module + "/jsonschema.Parser", core.Module + "/gen.Generator":
+		return true
 	}
 	return false
 }
@@ -416,6 +466,9 @@ func regionInputs(fn *ssa.Function, site skipMemo) []memoInput {
 		if mi == nil {
 			mi = &memoInput{path: path, diagnosticOnly: true}
 			got[path] = mi
+			if rootIsLongLived(v) {
+				mi.scratch = true
+			}
 			if _, ok := v.Type().Underlying().(*types.Signature); ok {
 				mi.funcValue = true
 			}
@@ -482,6 +535,9 @@ func regionInputs(fn *ssa.Function, site skipMemo) []memoInput {
 							if idx >= 0 && idx < len(callee.Params) {
 								pname := callee.Params[idx].Name()
 								base := rename(p)
+								if base == "" {
+									continue
+								}
 								scanFunc(callee, func(*ssa.BasicBlock) bool { return true }, depth+1, func(s string) string {
 									if s == pname {
 										return base
@@ -543,6 +599,39 @@ func regionInputs(fn *ssa.Function, site skipMemo) []memoInput {
 	}
 	sort.Slice(out, func(i, j int) bool { return out[i].path < out[j].path })
 	return out
+}
+
+// rootIsLongLived: the access path of v starts at a per-document singleton.
+func rootIsLongLived(v ssa.Value) bool {
+	for d := 0; d < 10 && v != nil; d++ {
+		switch x := v.(type) {
+		case *ssa.Parameter:
+			return longLivedOwner(x.Type())
+		case *ssa.FreeVar:
+			if p, ok := x.Type().Underlying().(*types.Pointer); ok && longLivedOwner(p.Elem()) {
+				return true
+			}
+			return longLivedOwner(x.Type())
+		case *ssa.UnOp:
+			v = x.X
+		case *ssa.FieldAddr:
+			if longLivedOwner(x.X.Type()) {
+				return true
+			}
+			v = x.X
+		case *ssa.Field:
+			v = x.X
+		case *ssa.ChangeType:
+			v = x.X
+		case *ssa.Convert:
+			v = x.X
+		case *ssa.MakeInterface:
+			v = x.X
+		default:
+			return false
+		}
+	}
+	return false
 }
 
 func usedBeyondPaths(v ssa.Value) bool {
